@@ -1257,7 +1257,8 @@ impl Vm {
             let err = error!(ErrorKind::RuntimeError, "Superclass must be a class.");
             return self.try_handle_error(err);
         };
-        if self.class_store.is_native_class(superclass) {
+        let string_class = self.string_class.as_ref().expect("Expected Root.").as_gc();
+        if superclass == string_class || self.class_store.is_native_class(superclass) {
             let err = error!(
                 ErrorKind::TypeError,
                 "Cannot derive from built-in class '{}'.",
